@@ -187,7 +187,10 @@ pub fn replay(case: &Value) -> Vec<String> {
     let body: Vec<u8> = serde_json::from_value(case["body"].clone()).unwrap_or_default();
     let filters: Vec<FilterSpec> = serde_json::from_value(case["filters"].clone()).unwrap_or_default();
     let headers: Headers = serde_json::from_value(case["headers"].clone()).unwrap_or_default();
-    check_case(&body, &filters, &headers, None).into_iter().map(|(s, _, _)| s).collect()
+    match crate::common::guarded(|| check_case(&body, &filters, &headers, None)) {
+        Ok(v) => v.into_iter().map(|(s, _, _)| s).collect(),
+        Err((loc, _)) => vec![format!("panic:{loc}")],
+    }
 }
 
 pub struct Case {
@@ -283,7 +286,11 @@ pub fn run(tier: Tier) -> i32 {
         if std::str::from_utf8(&c.body).is_err() {
             invalid.fetch_add(1, Ordering::Relaxed);
         }
-        for (sig, what, hist) in check_case(&c.body, &c.filters, &c.headers, Some((&states, &transitions))) {
+        let checked = match crate::common::guarded(|| check_case(&c.body, &c.filters, &c.headers, Some((&states, &transitions)))) {
+            Ok(v) => v,
+            Err((loc, msg)) => vec![(format!("panic:{loc}"), format!("the filter chain panicked at {loc}: {msg}; body {:?}", String::from_utf8_lossy(&c.body)), vec![])],
+        };
+        for (sig, what, hist) in checked {
             ctx.report(Violation {
                 signature: sig,
                 what: format!("filters {}: {}", c.name, what),
